@@ -155,9 +155,80 @@ def runScript (utils : Bytes) (featS outH escS alnS fsS opsS : String) : String 
   "|writes=" ++ ",".intercalate ((dedup (sortBytes o.writes)).map hex) ++
   "|names=" ++ ",".intercalate (names.map fun (a, b) => hex a ++ "=" ++ hex b)
 
+/-! ### `render` requests: expected rendering of typed generated templates -/
+
+partial def parseVal (s : List Char) : Option (Val × List Char) :=
+  let takeWhileC (p : Char → Bool) (s : List Char) : List Char × List Char := (s.takeWhile p, s.dropWhile p)
+  match s with
+  | 'i' :: r =>
+    let (neg, r) := match r with | '-' :: r' => (true, r') | _ => (false, r)
+    let (d, r) := takeWhileC Char.isDigit r
+    let n : Int := (String.ofList d).toNat!
+    some (.int (if neg then -n else n), r)
+  | 's' :: r =>
+    let (h, r) := takeWhileC (fun c => c.isAlphanum || c == '-') r
+    some (.str (unhex (String.ofList h)), r)
+  | 'b' :: c :: r => some (.bool (c == '1'), r)
+  | 'O' :: '-' :: r => some (.opt none, r)
+  | 'O' :: '(' :: r =>
+    match parseVal r with
+    | some (v, ')' :: r') => some (.opt (some v), r')
+    | _ => none
+  | 'P' :: r =>
+    let num (r : List Char) : Int × List Char :=
+      let (neg, r) := match r with | '-' :: r' => (true, r') | _ => (false, r)
+      let (d, r) := takeWhileC Char.isDigit r
+      let n : Int := (String.ofList d).toNat!
+      (if neg then -n else n, r)
+    let (x, r) := num r
+    match r with
+    | '_' :: r => let (y, r) := num r; some (.pt x y, r)
+    | _ => none
+  | 'L' :: '[' :: r => (parseVals r ']').map fun (l, r) => (.list l, r)
+  | 'T' :: '(' :: r => (parseVals r ')').map fun (l, r) => (.tup l, r)
+  | _ => none
+where
+  parseVals (s : List Char) (close : Char) : Option (List Val × List Char) :=
+    match s with
+    | c :: r => if c == close then some ([], r) else
+      match parseVal s with
+      | some (v, ',' :: r') => (parseVals r' close).map fun (l, r'') => (v :: l, r'')
+      | some (v, c' :: r') => if c' == close then some ([v], r') else none
+      | _ => none
+    | [] => none
+
+def paramName (a : Bytes) : Bytes := a.takeWhile Mini.isIdChar
+
+def renderReq (progS entryH envS : String) : String :=
+  let defs := (progS.splitOn ";").filterMap fun t =>
+    match t.splitOn ":" with
+    | [n, src] => some (unhex n, unhex src)
+    | _ => none
+  let parsed := defs.map fun (n, src) => (n, template (fuelFor src) src)
+  match parsed.find? (fun p => match p.2 with | .ok _ _ => false | _ => true) with
+  | some (n, _) => "parse-error " ++ hex n
+  | none =>
+    let prog : Prog := parsed.filterMap fun (n, r) =>
+      match r with
+      | .ok _ t => some (n, fnOf t (t.args.map paramName))
+      | _ => none
+    let env : Env := if envS == "-" then [] else (envS.splitOn ";").filterMap fun t =>
+      match t.splitOn "=" with
+      | [n, v] => (parseVal v.toList).map fun (val, _) => (unhex n, val)
+      | _ => none
+    match prog.get (unhex entryH) with
+    | none => "no-entry"
+    | some fn =>
+      -- the entry is called with the environment's values for its parameters
+      let cenv : Env := fn.params.filterMap fun p => (env.get p).map (p, ·)
+      match renderL Mini.sem prog 100000 fn.body cenv with
+      | some out => "ok " ++ hex out
+      | none => "fuel"
+
 def handle (utils : Bytes) (line : String) : String :=
   match line.trimAscii.toString.splitOn " " with
   | ["script", featS, outH, escS, alnS, fsS, opsS] => runScript utils featS outH escS alnS fsS opsS
+  | ["render", progS, entryH, envS] => renderReq progS entryH envS
   | ["slug", dataH] => hex (checksumSlug (unhex dataH))
   | ["nameext", fH] => (match nameAndExt (unhex fH) with | some (a, b) => "some " ++ hex a ++ " " ++ hex b | none => "none")
   | ["mangle", alnS, fH] => hex (mangle (fun c => (parseEsc alnS).contains c) (unhex fH))
